@@ -1321,8 +1321,6 @@ class Pregex():
         :raises CannotBeRepeatedException: Parameter ``n`` has a value of greater \
             than one, while this instance represents a non-repeatable pattern.
         '''
-        if not self._is_repeatable():
-            raise _ex.CannotBeRepeatedException(self)
         if not isinstance(n, int) or isinstance(n, bool):
             message = "Provided argument \"n\" is not an integer."
             raise _ex.InvalidArgumentTypeException(message)
@@ -1347,8 +1345,6 @@ class Pregex():
         :raises CannotBeRepeatedException: Parameter ``n`` has a value of greater \
             than one, while this instance represents a non-repeatable pattern.
         '''
-        if not self._is_repeatable():
-            raise _ex.CannotBeRepeatedException(self)
         if not isinstance(n, int) or isinstance(n, bool):
             message = "Provided argument \"n\" is not an integer."
             raise _ex.InvalidArgumentTypeException(message)
